@@ -263,6 +263,56 @@ func (r *rng) genQuoPair(c *apd.Context) (*apd.Decimal, *apd.Decimal) {
 var arithOpsAll = []string{"Add", "Sub", "Mul", "Quo", "QuoInteger", "Rem", "Abs", "Neg", "Round", "Reduce",
 	"Quantize", "RoundToIntegralValue", "RoundToIntegralExact", "Ceil", "Floor", "Cmp"}
 
+// genDivPair builds x = q*y + rem backwards: the integer quotient has about Precision digits (just below,
+// at, just above the limit that makes the division impossible) and the remainder has up to as many digits
+// as the divisor, which may have many more than Precision (so that Rem has to round its result, in the
+// mode and with the sign of x); both operands may carry a common or slightly different exponent.
+func (r *rng) genDivPair(ctx *apd.Context) (*apd.Decimal, *apd.Decimal) {
+	p := int(ctx.Precision)
+	if p == 0 {
+		p = r.rangeI(1, 12)
+	}
+	ny := r.pick([]int{1, 2, p, p + 1, p + 3, 2*p + 1, 3*p + 2})
+	y := r.coeffShape(ny)
+	if y.Sign() == 0 {
+		y = big.NewInt(7)
+	}
+	nq := r.pick([]int{0, 1, p - 1, p, p, p + 1, p + 2})
+	q := big.NewInt(0)
+	if nq > 0 {
+		q = r.coeffShape(nq)
+	}
+	rem := new(big.Int)
+	switch r.intn(5) {
+	case 0: // exact division
+	case 1: // remainder one below the divisor
+		rem.Sub(y, big.NewInt(1))
+	case 2: // a remainder with few digits
+		rem = r.coeffShape(r.rangeI(1, 3))
+		rem.Mod(rem, y)
+	default: // a remainder with about as many digits as the divisor: ties, nines, ...
+		rem = r.coeffShape(ny)
+		rem.Mod(rem, y)
+	}
+	x := new(big.Int).Mul(q, y)
+	x.Add(x, rem)
+	e := r.rangeI(-6, 6)
+	ex, ey := e, e
+	if r.coin(30) { // the same values written with different exponents
+		k := r.rangeI(1, 3)
+		if r.coin(50) {
+			x.Mul(x, pow10(k))
+			ex -= k
+		} else {
+			y = new(big.Int).Mul(y, pow10(k))
+			x.Mul(x, pow10(k))
+			ey -= k
+			ex -= k
+		}
+	}
+	return mkDec(apd.Finite, r.coin(50), x, ex), mkDec(apd.Finite, r.coin(50), y, ey)
+}
+
 func (r *rng) genArithCase(ops []string, specialPct int, aliasing bool, allowP0 bool) *arithCase {
 	op := ops[r.intn(len(ops))]
 	ctx := r.genCtx(allowP0)
@@ -351,7 +401,11 @@ func init() {
 	streams["div"] = func(r *rng, n int) {
 		ops := []string{"QuoInteger", "Rem"}
 		for i := 0; i < n; i++ {
-			emit(runArith(r.genArithCase(ops, 4, true, false)))
+			c := r.genArithCase(ops, 4, true, false)
+			if r.coin(45) {
+				c.X, c.Y = r.genDivPair(&c.Ctx)
+			}
+			emit(runArith(c))
 		}
 	}
 	// exhaustive enumeration of the special-operand cells: every operation x every pair of operand
